@@ -42,7 +42,7 @@ func (r *Rng) Fork() *Rng { return &Rng{r.U64()} }
 
 // field names on both sides of "_id" in byte order (upper case, digits and "_all" sort before it)
 var FieldNames = []string{"body", "title", "tag", "désc", "z", "Title", "0num"}
-var Vocab = []string{"", "a", "ab", "abc", "b", "cat", "dog", "naïve", "日本", "zz", "\x00", "the"}
+var Vocab = []string{"", "a", "A", "ab", "abc", "b", "cat", "dog", "naïve", "日本", "zz", "\x00", "the"} // "A"/"a": equal under case folding and adjacent in byte order
 
 type GenOpts struct {
 	NDocs       int
@@ -155,6 +155,11 @@ func genField(r *Rng, o GenOpts, fi int) Field {
 	if len(f.Toks) > 0 && f.Len == 0 {
 		f.Len = 1
 	}
+	if len(f.Toks) > 0 && r.Chance(10) {
+		// analysed lengths whose varint (the norm as stored) has a 0x80 byte or changes its byte length
+		edge := []uint64{127, 128, 129, 256, 384, 16383, 16384, 16512}
+		f.Len = edge[r.Intn(len(edge))]
+	}
 	return f
 }
 
@@ -170,7 +175,7 @@ func GenBatch(r *Rng, o GenOpts) Batch {
 	for i := 0; i < o.NDocs; i++ {
 		id := fmt.Sprintf("%s%03d", o.IDBase, i)
 		if o.LongIDs && r.Chance(6) {
-			lens := []int{127, 128, 129, 255, 256, 257, 300, 1000, 5000}
+			lens := []int{127, 128, 129, 255, 256, 257, 300, 1000, 5000, 16384, 32767, 32768, 65536} // incl. single writes of k*32 KiB
 			if n := lens[r.Intn(len(lens))]; n > len(id) {
 				id += strings.Repeat("k", n-len(id))
 			}
@@ -351,7 +356,7 @@ func (b Batch) Stats() BatchStats {
 var SharedThesNames = true
 
 var ThesNames = []string{"syn1", "syn2", "thesaurus"}
-var SynVocab = []string{"happy", "glad", "joyful", "big", "large", "huge", "b", "cat", "日本", "x"}
+var SynVocab = []string{"happy", "glad", "joyful", "big", "large", "huge", "b", "B", "cat", "日本", "x"} // "B"/"b": case twins, adjacent in byte order
 
 // AddSynDocs mixes synonym documents into a batch (W6: >= 1 synonym per definition, non-empty strings;
 // a thesaurus may be named like an ordinary field, see SharedThesNames).
@@ -376,8 +381,15 @@ func AddSynDocs(r *Rng, b Batch, idbase string) Batch {
 			f := Field{Name: th, Typ: 's'}
 			nd := 1 + r.Intn(3)
 			seenT := map[string]bool{}
+			twins := r.Chance(8) // exactly the case twins
+			if twins {
+				nd = 2
+			}
 			for q := 0; q < nd; q++ {
 				term := SynVocab[r.Intn(len(SynVocab))]
+				if twins {
+					term = []string{"B", "b"}[q]
+				}
 				if seenT[term] {
 					continue
 				}
